@@ -214,6 +214,9 @@ fn fidelity(case: &Case, obs: &mut Obs) -> PropResult {
 	if let Some(table) = crate::classfile::gen::inflate_table(&mut model, case.big) {
 		obs.label(format!("table_with_300_entries:{table}"));
 	}
+	if let Some(n) = crate::classfile::gen::add_long_string(&mut model, case.big) {
+		obs.label(if n > 32767 { "utf8_constant>32767_bytes" } else { "utf8_constant=32767_bytes" });
+	}
 	let canon = model.canon();
 	let mut projections: Vec<CClass> = Vec::new();
 	let mut forms_all: Vec<&'static str> = Vec::new();
